@@ -14,6 +14,10 @@ FORBIDDEN = re.compile(r"\b(sorry|admit|native_decide|implemented_by|unsafe)\b|^
 
 from props import PROPS  # noqa: E402
 
+# operations whose expected answer is fixed by the property (the implementation side always prints the
+# answer the property demands); the Lean side evaluates the specification predicate on the implementation's value
+DIRECT_OPS = {"respell": "not-a-respelling"}
+
 
 def sh(cmd, cwd=None, env=None, timeout=None, stdin=None, stdout=None):
     t0 = time.time()
@@ -195,7 +199,41 @@ def run_suite(pid, suite, tier, seed, workdir, log, replay=None):
                 g = fg.readline()
                 l = fl.readline()
                 n += 1
+                # the model may append " #key=value" annotations (e.g. the class of a shape); they are not compared
+                ann = ""
+                if " #" in l:
+                    l, ann = l.split(" #", 1)
+                    l = l.rstrip() + "\n"
+                word = op.split(" ", 1)[0]
+                if word == "roundtrip" and "dom=in" in ann and g.strip() != "rt-ok":
+                    # inside the hypothesis of C10 the implementation itself failed to round-trip
+                    inp = {"suite": suite, "op": op.strip()[:2000]}
+                    for kv in ann.split():
+                        if "=" in kv:
+                            k, v = kv.split("=", 1)
+                            inp[k] = v
+                    if len(r["propfails"]) < 50:
+                        r["propfails"].append({"kind": "roundtrip", "desc": "Marshal accepted the value but Unmarshal(Marshal(v)) gave " + g.strip(), "input": inp})
+                    r["stats"]["propfail:roundtrip"] = r["stats"].get("propfail:roundtrip", 0) + 1
+                if word == "roundtrip":
+                    r["stats"]["roundtrip:" + ("in" if "dom=in" in ann else "out") + ":" + g.strip()] = r["stats"].get("roundtrip:" + ("in" if "dom=in" in ann else "out") + ":" + g.strip(), 0) + 1
+                if word == "restable" and g.strip() in ("reject", "diff"):
+                    inp = {"suite": suite, "op": op.strip()[:2000]}
+                    if len(r["propfails"]) < 50:
+                        r["propfails"].append({"kind": "remarshal-unstable", "desc": "re-marshalling an unmarshalled value gave a string that unmarshals differently: " + g.strip(), "input": inp})
                 if g != l:
+                    if word in DIRECT_OPS:
+                        # the operation evaluates the property itself on a value the implementation produced:
+                        # a disagreement is a concrete failing input, not a modelling gap
+                        inp = {"suite": suite, "op": op.strip()[:2000]}
+                        for kv in ann.split():
+                            if "=" in kv:
+                                k, v = kv.split("=", 1)
+                                inp[k] = v
+                        if len(r["propfails"]) < 50:
+                            r["propfails"].append({"kind": DIRECT_OPS[word], "desc": "implementation: %s, specification: %s" % (g.strip(), l.strip()), "input": inp})
+                        r["stats"]["propfail:" + DIRECT_OPS[word]] = r["stats"].get("propfail:" + DIRECT_OPS[word], 0) + 1
+                        continue
                     if len(r["mismatches"]) < 20:
                         r["mismatches"].append({"line": n, "op": op.strip(), "go": g.strip(), "model": l.strip()})
                     r["n_mismatch"] = r.get("n_mismatch", 0) + 1
